@@ -221,3 +221,13 @@ example : faultSites (mkCtx trivPrims trivOut {} c20ExFs 1) c20ExRoot [] = [⟨3
 example : ∃ l : Loc, (faultSites (mkCtx trivPrims trivOut {} c20ExFs 1) c20ExRoot [])[2]? = some l ∧
     (runFaulty (frender trivPrims trivOut {} c20ExFs 1 c20ExRoot []) (some 2) 0).1 = .err (.located ⟨l.line, l.pathSet, .io, .byCause⟩) :=
   frender_faulty_located trivPrims trivOut {} c20ExFs 1 c20ExRoot [] 2 0 (by rw [c20Ex_calls]; decide)
+
+/-- `fault_site_in_tree` on this instance: no node at line 0 -/
+example : ∀ l ∈ faultSites (mkCtx trivPrims trivOut {} c20ExFs 1) c20ExRoot [],
+    l = invalidLoc ∨ (l.pathSet = true ∧ l.line ∈ linesList c20ExRoot) :=
+  fault_site_in_tree trivPrims trivOut {} c20ExFs 1 c20ExRoot [] (Or.inr (by decide))
+
+/-- `located_node_fault_sites` on the `if` block of this instance: every write below it is located at line 3 or 4 -/
+example (c : RCtx) (s : RS) : ∀ l ∈ (traceNode c (.ifB 3 [(.always, [.raw [[120]], .text 4 [98]])]) s).calls,
+    ∃ x ∈ (Node.ifB 3 [(.always, [.raw [[120]], .text 4 [98]])]).lines, l = some ⟨x, true⟩ :=
+  located_node_fault_sites c _ s rfl (Or.inr (by decide))
